@@ -439,6 +439,46 @@ pub fn gen_main(p: &'static dyn Property, tier: Tier, idx: u64) -> i32 {
     0
 }
 
+/// `vcheck seeds <id> <dir> <n>`: n random full-length tapes (little-endian u32) as a
+/// starting corpus for the libFuzzer stage, a pure function of VERIF_SEED
+pub fn seeds_main(p: &'static dyn Property, dir: &str, n: u64) -> i32 {
+    let seed = seed_from_env();
+    let _ = std::fs::create_dir_all(dir);
+    for idx in 0..n {
+        let rng = TestRng::from_seed(RngAlgorithm::ChaCha, &case_seed(seed ^ 0x5eed_f00d, p.id(), idx));
+        let mut runner = TestRunner::new_with_rng(Config { failure_persistence: None, ..Config::default() }, rng);
+        // a third of the seeds are short (small cases), the rest full length
+        let len = if idx % 3 == 0 { p.tape_len(Tier::Quick) / 8 } else { p.tape_len(Tier::Quick) };
+        let strat = proptest::collection::vec(proptest::num::u32::ANY, len..=len);
+        let tree = strat.new_tree(&mut runner).expect("tape tree");
+        let bytes: Vec<u8> = tree.current().iter().flat_map(|w| w.to_le_bytes()).collect();
+        std::fs::write(Path::new(dir).join(format!("seed-{idx:04}")), bytes).expect("write seed");
+    }
+    0
+}
+
+pub fn tape_from_bytes(p: &dyn Property, data: &[u8]) -> Vec<u32> {
+    let len = p.tape_len(Tier::Quick);
+    let mut tape: Vec<u32> = data
+        .chunks(4)
+        .map(|c| {
+            let mut b = [0u8; 4];
+            b[..c.len()].copy_from_slice(c);
+            u32::from_le_bytes(b)
+        })
+        .collect();
+    tape.resize(len, 0);
+    tape
+}
+
+/// `vcheck from-bytes <id> <file>`: decode a libFuzzer input into the case it stands for
+pub fn from_bytes_main(p: &'static dyn Property, file: &str) -> i32 {
+    let data = std::fs::read(file).expect("read input");
+    let tape = tape_from_bytes(p, &data);
+    println!("{{\"property\":\"{}\",\"case\":{}}}", p.id(), gen_case(p, &tape, Tier::Quick));
+    0
+}
+
 // ---------------------------------------------------------------------------------------
 // single case in a fresh process:  vcheck one <id> <casefile> <outfile>
 
@@ -474,8 +514,15 @@ pub struct Summary {
     pub inconclusive: Option<String>,
 }
 
-fn self_exe() -> PathBuf {
-    std::env::current_exe().expect("current_exe")
+/// the vcheck binary: this process when it is vcheck, else (libFuzzer target) the one the
+/// check script has just built
+pub fn self_exe() -> PathBuf {
+    let me = std::env::current_exe().expect("current_exe");
+    if me.file_name().and_then(|n| n.to_str()).map(|n| n.starts_with("vcheck")).unwrap_or(false) {
+        me
+    } else {
+        Path::new(VERIF_ROOT).join("target").join("debug").join("vcheck")
+    }
 }
 
 fn run_one_child(id: &str, casefile: &Path, timeout_s: u64) -> Result<CaseResult, String> {
